@@ -94,7 +94,13 @@ func cmdDump(args []string) {
 		}
 		for _, o := range rep.Obls {
 			status := o.Result
+			if o.Kind == "cover-pre" {
+				continue
+			}
 			good := (o.ExpectSat && o.Result == "sat") || (!o.ExpectSat && o.Result == "unsat")
+			if o.ExpectSat && o.Result == "unsat" && o.Pre != nil && o.Pre.Result == "unsat" {
+				good = true
+			}
 			mark := "ok  "
 			if !good {
 				mark = "FAIL"
